@@ -293,15 +293,17 @@ Definition fs_coll_ops (g : fs_cfg) (append : bool) (cl : fs_coll) : list cop :=
    else fs_level_ops g pfx rows ++ map OUnlink (fs_chunk_names g pfx rows)) ++
   fs_result_ops g pfx levels.
 
-(* collections one after the other; once a collection without prefix has been written, later
-   collections append to the result files (`append_to_output_file = True`) *)
-Fixpoint fs_colls_ops (g : fs_cfg) (append : bool) (cls : list fs_coll) : list cop :=
+(* collections one after the other.  Collections without prefix share their result files: once one of
+   them has been written, the following ones append.  A collection with a prefix has result files of its
+   own, which are created afresh (unless the caller asked for appending). *)
+Fixpoint fs_colls_ops (g : fs_cfg) (seen : bool) (cls : list fs_coll) : list cop :=
   match cls with
   | [] => []
-  | cl :: r => fs_coll_ops g append cl ++ fs_colls_ops g (append || (fc_pfx cl =? 0))%bool r
+  | cl :: r => fs_coll_ops g (fg_append g || (seen && (fc_pfx cl =? 0)))%bool cl ++
+               fs_colls_ops g (seen || (fc_pfx cl =? 0))%bool r
   end.
 
-Definition fs_run_ops (g : fs_cfg) : list cop := fs_colls_ops g (fg_append g) (fg_colls g).
+Definition fs_run_ops (g : fs_cfg) : list cop := fs_colls_ops g false (fg_colls g).
 
 Definition ccat (a b : ccontent) : ccontent := a ++ b.
 Definition cfs := fs ccontent.
